@@ -145,7 +145,20 @@ def run(job, mon):
         # joint coordinates reported by spring / positional are not the
         # inverse image of the pose (known finding K2 of C08), so "inside
         # the range" cannot be read off them and the guard rejects the case
-        if idx % 4 == 3:
+        if idx % 4 == 1:
+          # single joints (slide or hinge) at the body origin, every one
+          # limited, half of them with a range that does not contain 0
+          spec = gen.gen_model(rng, strength='gentle', limit_prob=1.0,
+                               n_links=int(rng.integers(1, 4)),
+                               single_origin=True)
+          for b_ in spec['bodies']:
+            for j_ in b_['joints']:
+              if 'range' in j_ and rng.random() < 0.5:
+                a_, w_ = float(rng.uniform(0.1, 0.8)), float(
+                    rng.uniform(0.3, 1.0))
+                j_['range'] = ([a_, a_ + w_] if rng.random() < 0.5
+                               else [-a_ - w_, -a_])
+        elif idx % 4 == 3:
           # three-hinge stacks of either handedness, ranges on every axis
           spec = gen.gen_model(rng, strength='gentle', limit_prob=0.9,
                                n_links=int(rng.integers(1, 4)), ortho=True,
